@@ -513,23 +513,170 @@ mut("ok-rec-cap-at-callsite", "benign", [], "the depth cap is tested by the call
                     dispose_general_node(next_ptr.as_raw(), depth + 1, counter, guard);
                 }
             }""")])
+mut("queue-try-pop-gives-up", "break", ["C17"], "try_pop reports a lost race as empty",
+    [ed("src/ebr_impl/sync/queue.rs", """        loop {
+            if let Ok(head) = self.pop_internal(guard) {
+                return head;
+            }
+        }""", """        self.pop_internal(guard).unwrap_or(None)""")], ["EBR-QUEUE"])
+mut("ok-queue-try-pop-match", "benign", [], "try_pop's loop written with match/continue",
+    [ed("src/ebr_impl/sync/queue.rs", """        loop {
+            if let Ok(head) = self.pop_internal(guard) {
+                return head;
+            }
+        }""", """        loop {
+            match self.pop_internal(guard) {
+                Ok(head) => return head,
+                Err(()) => continue,
+            }
+        }""")])
+# ---- memory orderings (ORD-*): weakening below a necessary floor is a break, strengthening is benign
+QF = "src/ebr_impl/sync/queue.rs"
+LF = "src/ebr_impl/sync/list.rs"
+mut("ord-dec-weak-relaxed", "break", ["C03", "C04"], "decrement_weak's fetch_sub is Relaxed",
+    [ed(U, "(*ptr).state.fetch_sub(WEAK_COUNT, Ordering::SeqCst)", "(*ptr).state.fetch_sub(WEAK_COUNT, Ordering::Relaxed)")],
+    ["ORD-COUNT"])
+mut("ord-dec-strong-acquire", "break", ["C01", "C04"], "decrement_strong's CAS succeeds with Acquire only (no release)",
+    [ed(U, """                    curr.with_epoch(epoch).sub_strong(count).as_raw(),
+                    Ordering::SeqCst,
+                    Ordering::SeqCst,""", """                    curr.with_epoch(epoch).sub_strong(count).as_raw(),
+                    Ordering::Acquire,
+                    Ordering::Relaxed,""")], ["ORD-COUNT"])
+mut("ord-try-destruct-relaxed", "break", ["C01", "C04"], "try_destruct reads and marks the word with Relaxed only",
+    [ed(U, """        let mut old = State::from_raw((*ptr).state.load(Ordering::SeqCst));
+        debug_assert!(!old.destructed());""", """        let mut old = State::from_raw((*ptr).state.load(Ordering::Relaxed));
+        debug_assert!(!old.destructed());"""),
+     ed(U, """                old.with_destructed(true).as_raw(),
+                Ordering::SeqCst,
+                Ordering::SeqCst,""", """                old.with_destructed(true).as_raw(),
+                Ordering::Relaxed,
+                Ordering::Relaxed,""")], ["ORD-COUNT"])
+mut("ok-ord-try-destruct-load-acquire", "benign", [], "try_destruct: Acquire load, AcqRel/Acquire CAS",
+    [ed(U, """        let mut old = State::from_raw((*ptr).state.load(Ordering::SeqCst));
+        debug_assert!(!old.destructed());""", """        let mut old = State::from_raw((*ptr).state.load(Ordering::Acquire));
+        debug_assert!(!old.destructed());"""),
+     ed(U, """                old.with_destructed(true).as_raw(),
+                Ordering::SeqCst,
+                Ordering::SeqCst,""", """                old.with_destructed(true).as_raw(),
+                Ordering::AcqRel,
+                Ordering::Acquire,""")])
+mut("ord-unpin-relaxed", "break", ["C13", "C02"], "unpin clears the local epoch with a Relaxed store",
+    [ed(I, """            self.epoch.store(Epoch::starting(), Ordering::Release);
+
+            if self.handle_count.get() == 0 {""", """            self.epoch.store(Epoch::starting(), Ordering::Relaxed);
+
+            if self.handle_count.get() == 0 {""")], ["ORD-EPOCH"])
+mut("ord-repin-relaxed", "break", ["C13", "C02"], "repin_without_collect moves the local epoch with a Relaxed store",
+    [ed(I, "self.epoch.store(global_epoch, Ordering::Release);", "self.epoch.store(global_epoch, Ordering::Relaxed);")],
+    ["ORD-EPOCH"])
+mut("ord-advance-relaxed", "break", ["C13", "C14"], "try_advance publishes the new epoch with a Relaxed store",
+    [ed(I, "self.epoch.store(new_epoch, Ordering::Release);", "self.epoch.store(new_epoch, Ordering::Relaxed);")],
+    ["ORD-EPOCH"])
+mut("ord-advance-no-acquire-fence", "break", ["C13", "C14"], "try_advance drops the acquire fence after the traversal",
+    [ed(I, "        atomic::fence(Ordering::Acquire);\n", "")], ["ORD-EPOCH"])
+mut("ok-ord-advance-acquire-loads", "benign", [], "try_advance: acquire loads of the participants instead of the fence",
+    [ed(I, "        atomic::fence(Ordering::Acquire);\n", ""),
+     ed(I, "let local_epoch = local.epoch.load(Ordering::Relaxed);", "let local_epoch = local.epoch.load(Ordering::Acquire);")])
+mut("ok-ord-unpin-seqcst", "benign", [], "unpin clears the local epoch with SeqCst",
+    [ed(I, """            self.epoch.store(Epoch::starting(), Ordering::Release);
+
+            if self.handle_count.get() == 0 {""", """            self.epoch.store(Epoch::starting(), Ordering::SeqCst);
+
+            if self.handle_count.get() == 0 {""")])
+mut("ord-queue-link-relaxed", "break", ["C17", "C15"], "push links the node with a Relaxed CAS",
+    [ed(QF, ".compare_exchange(RawShared::null(), new, Release, Relaxed, guard)",
+        ".compare_exchange(RawShared::null(), new, Relaxed, Relaxed, guard)")], ["ORD-QUEUE"])
+mut("ord-queue-next-relaxed", "break", ["C17", "C15"], "pop_if reads head.next with Relaxed before giving the payload to the predicate",
+    [ed(QF, """        let head = self.head.load(Acquire, guard);
+        let h = unsafe { head.deref() };
+        let next = h.next.load(Acquire, guard);
+        match unsafe { next.as_ref() } {
+            Some(n) if condition""", """        let head = self.head.load(Acquire, guard);
+        let h = unsafe { head.deref() };
+        let next = h.next.load(Relaxed, guard);
+        match unsafe { next.as_ref() } {
+            Some(n) if condition""")], ["ORD-QUEUE"])
+mut("ord-list-insert-relaxed", "break", ["C18"], "List::insert publishes the entry with a Relaxed CAS",
+    [ed(LF, "to.compare_exchange_weak(next, entry_ptr, Release, Relaxed, guard)",
+        "to.compare_exchange_weak(next, entry_ptr, Relaxed, Relaxed, guard)")], ["ORD-LIST"])
+mut("ord-list-iter-relaxed", "break", ["C18"], "the list iterator follows next pointers with Relaxed loads",
+    [ed(LF, "let succ = c.next.load(Acquire, self.guard);", "let succ = c.next.load(Relaxed, self.guard);")], ["ORD-LIST"])
+mut("ord-list-mark-relaxed", "break", ["C18"], "Entry::delete marks with a Relaxed fetch_or",
+    [ed(LF, "self.next.fetch_or(1, Release, guard);", "self.next.fetch_or(1, Relaxed, guard);")], ["ORD-LIST"])
+mut("ord-forward-load-relaxed", "break", ["C08"], "AtomicRc::load ignores the caller's ordering",
+    [ed(S, "        Snapshot::from_raw(self.link.load(order), guard)",
+        "        let _ = order;\n        Snapshot::from_raw(self.link.load(Ordering::Relaxed), guard)")],
+    ["ORD-FORWARD"])
+mut("ord-forward-cas-swapped", "break", ["C13", "C17", "C18"], "RawAtomic::compare_exchange swaps success and failure orderings",
+    [ed("src/ebr_impl/pointers.rs", """            .compare_exchange(current.inner, new.inner, success, failure)""",
+        """            .compare_exchange(current.inner, new.inner, failure, success)""")], ["ORD-FORWARD"])
+mut("flush-overflow-no-schedule", "break", ["C15"], "defer pushes a full bag without scheduling a collection",
+    [ed(I, """            deferred = d;
+            self.schedule_collection();""", """            deferred = d;""")], ["EBR-FLUSH-SCHEDULES"])
+mut("flush-schedule-conditional", "break", ["C15"], "schedule_collection sets the flag only when not collecting",
+    [ed(I, """        self.must_collect.set(true);
+    }
+
+    pub(crate) fn incr_advance""", """        if !self.collecting.get() {
+            self.must_collect.set(true);
+        }
+    }
+
+    pub(crate) fn incr_advance""")], ["EBR-FLUSH-SCHEDULES"])
+mut("flush-collect-no-advance", "break", ["C15"], "collect no longer tries to advance the epoch",
+    [ed(I, """        self.try_advance(guard);
+
+        debug_assert!(
+            !guard.local.is_null(),""", """        debug_assert!(
+            !guard.local.is_null(),""")], ["EBR-FLUSH-SCHEDULES"])
+mut("ok-flush-schedule-first", "benign", [], "flush schedules before pushing",
+    [ed(I, """        self.push_to_global(guard);
+        self.schedule_collection();""", """        self.schedule_collection();
+        self.push_to_global(guard);""")])
 mut("rec-collect-reentrant", "break", ["C07"], "unpin collects even while a collection is running (flag not tested)",
     [ed(I, "if guard_count == 1 && !self.collecting.get() {", "if guard_count == 1 {")], ["REC-COLLECT-REENTRY"])
-mut("rec-collecting-cleared-in-schedule", "break", ["C07"], "schedule_collection clears the collecting flag after re-pinning",
-    [ed(I, """        if self.collecting.get() {
-            self.repin_without_collect();
-        }""", """        if self.collecting.get() {
-            self.repin_without_collect();
-            self.collecting.set(false);
-        }""")], ["REC-COLLECT-REENTRY"])
-mut("rec-flush-collects", "break", ["C07"], "schedule_collection collects eagerly",
-    [ed(I, """        if self.collecting.get() {
-            self.repin_without_collect();
-        }""", """        if self.collecting.get() {
-            self.repin_without_collect();
+mut("rec-collecting-cleared-in-schedule", "break", ["C07"], "schedule_collection clears the collecting flag",
+    [ed(I, """        self.must_collect.set(true);
+    }
+
+    pub(crate) fn incr_advance""", """        self.must_collect.set(true);
+        self.collecting.set(false);
+    }
+
+    pub(crate) fn incr_advance""")], ["REC-COLLECT-REENTRY"])
+mut("rec-flush-collects", "break", ["C07"], "schedule_collection collects eagerly while collecting",
+    [ed(I, """        self.must_collect.set(true);
+    }
+
+    pub(crate) fn incr_advance""", """        self.must_collect.set(true);
+        if self.collecting.get() {
             let guard = ManuallyDrop::new(Guard { local: self });
             self.global().collect(&guard);
-        }""")], ["REC-COLLECT-REENTRY"])
+        }
+    }
+
+    pub(crate) fn incr_advance""")], ["REC-COLLECT-REENTRY"])
+mut("rev-F10-schedule-repins", "break", ["C02", "C13", "C16"], "schedule_collection re-pins while collecting again",
+    [ed(I, """        self.must_collect.set(true);
+    }
+
+    pub(crate) fn incr_advance""", """        self.must_collect.set(true);
+        if self.collecting.get() {
+            self.repin_without_collect();
+        }
+    }
+
+    pub(crate) fn incr_advance""")], ["EBR-COLLECT-OUTERMOST"])
+mut("F10-flush-repins", "break", ["C02", "C13", "C16"], "flush re-pins the thread (any time)",
+    [ed(I, """        self.push_to_global(guard);
+        self.schedule_collection();""", """        self.push_to_global(guard);
+        self.schedule_collection();
+        self.repin_without_collect();""")], ["EBR-COLLECT-OUTERMOST"])
+mut("rev-F11-stale-guard-count", "break", ["C16"], "unpin writes back the count read before the collection again",
+    [ed(I, """        // Read the count again: a destructor run by the collection above may have created a
+        // guard that is still alive (e.g. stored in a thread-local).
+        let guard_count = self.guard_count.get();
+""", "")], ["EBR-GUARD-COUNT"])
 mut("ebr-collect-nested", "break", ["C02", "C13", "C16"], "unpin collects for nested guards too",
     [ed(I, "if guard_count == 1 && !self.collecting.get() {", "if !self.collecting.get() {")], ["EBR-COLLECT-OUTERMOST"])
 mut("ebr-unpin-clears-always", "break", ["C16", "C13"], "unpin clears the local epoch for nested guards",
@@ -914,12 +1061,12 @@ mut("ok-unpin-early-return", "benign", ["C16", "C13"], "unpin restructured with 
      ed(I, """            self.collecting.set(false);
         }
 
-        self.guard_count.set(guard_count - 1);""", """            self.collecting.set(false);
+        // Read the count again""", """            self.collecting.set(false);
           }
         }
 
-        self.guard_count.set(guard_count - 1);""")])
-mut("ok-unpin-cold-path", "benign", ["C13", "C15", "C16", "C20"], "unpin's collection loop hoisted into a #[cold] helper (with the finalize test kept)",
+        // Read the count again""")])
+mut("unpin-cold-path-stale-count", "break", ["C16"], "unpin's collection loop hoisted into a #[cold] helper that sets guard_count to 0 after the collection (F11 again: a guard created by a destructor is not counted)",
     [ed(I, """        if guard_count == 1 && !self.collecting.get() {
             self.collecting.set(true);
             while self.must_collect.get() {
@@ -952,6 +1099,48 @@ mut("ok-unpin-cold-path", "benign", ["C13", "C15", "C16", "C20"], "unpin's colle
         self.epoch.store(Epoch::starting(), Ordering::Release);
         if self.handle_count.get() == 0 {
             self.finalize();
+        }
+    }
+
+    /// Unpins and then pins the `Local`.
+    #[inline]
+    pub(crate) fn repin(&self) {""")], ["EBR-GUARD-COUNT"])
+mut("ok-unpin-cold-path", "benign", ["C13", "C15", "C16", "C20"], "unpin's collection loop hoisted into a #[cold] helper that re-reads the count (finalize test kept)",
+    [ed(I, """        if guard_count == 1 && !self.collecting.get() {
+            self.collecting.set(true);
+            while self.must_collect.get() {
+                self.must_collect.set(false);
+                debug_assert!(self.epoch.load(Ordering::Relaxed).is_pinned());
+                let guard = ManuallyDrop::new(Guard { local: self });
+                self.global().collect(&guard);
+                self.repin_without_collect();
+            }
+            self.collecting.set(false);
+        }
+""", """        if guard_count == 1 && self.must_collect.get() && !self.collecting.get() {
+            return self.unpin_and_collect();
+        }
+"""),
+     ed(I, """    /// Unpins and then pins the `Local`.
+    #[inline]
+    pub(crate) fn repin(&self) {""", """    #[cold]
+    fn unpin_and_collect(&self) {
+        self.collecting.set(true);
+        while self.must_collect.get() {
+            self.must_collect.set(false);
+            let guard = ManuallyDrop::new(Guard { local: self });
+            self.global().collect(&guard);
+            self.repin_without_collect();
+        }
+        self.collecting.set(false);
+
+        let guard_count = self.guard_count.get();
+        self.guard_count.set(guard_count - 1);
+        if guard_count == 1 {
+            self.epoch.store(Epoch::starting(), Ordering::Release);
+            if self.handle_count.get() == 0 {
+                self.finalize();
+            }
         }
     }
 
